@@ -30,7 +30,9 @@ import (
 )
 
 // tls: Astra-bundle connections against TLS servers presenting generated certificate chains.
-// op:   T:<meta|node|hostid> A:<seconds between creating the endpoint and connecting> L:<chain>
+// op:   T:<meta|node|hostid> A:<seconds between creating the endpoint and connecting> [H:ip] [E:1] L:<chain>
+//         H:ip  the bundle's host is an IP literal (127.0.0.1) instead of a DNS name
+//         E:1   another endpoint (another host id) is created from the same resolver before connecting
 //         chain = certificates leaf first, separated by ';', each  id.signer.names.notBefore.notAfter.ca
 //           id / signer: key identities; 1 = the bundle's CA, 2 = another CA (not in the bundle), others free
 //           names: h = the bundle's host, x = another name, n = none, hx = both
@@ -73,6 +75,7 @@ func parseChain(s string) []absCert {
 }
 
 type pki struct {
+	host string // the bundle's host: a DNS name or an IP literal
 	mu   sync.Mutex
 	keys map[int]*ecdsa.PrivateKey
 	ser  int64
@@ -114,7 +117,11 @@ func (p *pki) make(c absCert, now time.Time, client bool) []byte {
 		tmpl.ExtKeyUsage = []x509.ExtKeyUsage{x509.ExtKeyUsageServerAuth}
 	}
 	if strings.Contains(c.names, "h") {
-		tmpl.DNSNames = append(tmpl.DNSNames, tlsHost)
+		if ip := net.ParseIP(p.host); ip != nil {
+			tmpl.IPAddresses = append(tmpl.IPAddresses, ip)
+		} else {
+			tmpl.DNSNames = append(tmpl.DNSNames, p.host)
+		}
 	}
 	if strings.Contains(c.names, "x") {
 		tmpl.DNSNames = append(tmpl.DNSNames, tlsOtherName)
@@ -197,7 +204,7 @@ func runTLS(op string) (out string) {
 			out = fmt.Sprintf("panic:%v", p)
 		}
 	}()
-	target, age, chainS := "node", 0, ""
+	target, age, chainS, host, extraEndpoint := "node", 0, "", tlsHost, false
 	for _, t := range strings.Fields(op) {
 		switch {
 		case strings.HasPrefix(t, "T:"):
@@ -206,13 +213,17 @@ func runTLS(op string) (out string) {
 			age, _ = strconv.Atoi(t[2:])
 		case strings.HasPrefix(t, "L:"):
 			chainS = t[2:]
+		case t == "H:ip":
+			host = "127.0.0.1"
+		case t == "E:1":
+			extraEndpoint = true
 		}
 	}
 	chain := parseChain(chainS)
 	if len(chain) == 0 {
 		return "bad-op"
 	}
-	p := &pki{keys: map[int]*ecdsa.PrivateKey{}}
+	p := &pki{host: host, keys: map[int]*ecdsa.PrivateKey{}}
 	now := time.Now()
 	caDER := p.make(absCert{1, 1, "n", -3600, 36000, true}, now, false)
 	clientDER := p.make(absCert{900, 1, "n", -3600, 36000, false}, now, true)
@@ -274,7 +285,7 @@ func runTLS(op string) (out string) {
 		w, _ := zw.Create(name)
 		_, _ = w.Write(b)
 	}
-	cfgJSON, _ := json.Marshal(map[string]interface{}{"host": tlsHost, "port": metaLn.Addr().(*net.TCPAddr).Port})
+	cfgJSON, _ := json.Marshal(map[string]interface{}{"host": host, "port": metaLn.Addr().(*net.TCPAddr).Port})
 	add("config.json", cfgJSON)
 	add("ca.crt", pemOf("CERTIFICATE", caDER))
 	add("cert", pemOf("CERTIFICATE", clientDER))
@@ -317,6 +328,16 @@ func runTLS(op string) (out string) {
 				return "env-error:newendpoint"
 			}
 		}
+		if extraEndpoint { // an endpoint for another node, created later and never used
+			id2, _ := primitive.ParseUuid("c3d4e5f6-4444-5555-6666-00000000f00d")
+			cols := []*message.ColumnMetadata{{Keyspace: "system", Table: "peers", Name: "data_center", Index: 0, Type: datatype.Varchar},
+				{Keyspace: "system", Table: "peers", Name: "host_id", Index: 1, Type: datatype.Uuid}}
+			rs := proxycore.NewResultSet(&message.RowsResult{Metadata: &message.RowsMetadata{ColumnCount: 2, Columns: cols},
+				Data: message.RowSet{message.Row{[]byte("dc1"), id2[:]}}}, primitive.ProtocolVersion4)
+			if _, err := resolver.NewEndpoint(rs.Row(0)); err != nil {
+				return "env-error:newendpoint2"
+			}
+		}
 		if age > 0 {
 			time.Sleep(time.Duration(age) * time.Second)
 		}
@@ -341,7 +362,7 @@ func runTLS(op string) (out string) {
 		sni = "cp"
 	case tlsHostID:
 		sni = "hostid"
-	case tlsHost:
+	case host:
 		sni = "host"
 	default:
 		sni = "other"
@@ -436,6 +457,14 @@ func genTLS(e *emitter, r *rng.R, n int, tier string) {
 		for _, k := range names {
 			ops = append(ops, fmt.Sprintf("T:%s A:0 L:%s", t, named[k]))
 		}
+		// a bundle whose host is an IP literal: the name check is against the certificate's IP addresses
+		for _, k := range []string{"valid-leaf", "wrong-name", "no-name", "other-ca-leaf", "self-signed", "wrong-name-right-name-extra", "intermediate-present"} {
+			ops = append(ops, fmt.Sprintf("T:%s A:0 H:ip L:%s", t, named[k]))
+		}
+	}
+	// every endpoint carries its own node id, however many the resolver has made
+	for _, k := range []string{"valid-leaf", "wrong-name", "intermediate-present"} {
+		ops = append(ops, fmt.Sprintf("T:node A:0 E:1 L:%s", named[k]), fmt.Sprintf("T:hostid A:0 E:1 L:%s", named[k]), fmt.Sprintf("T:hostid A:0 E:1 H:ip L:%s", named[k]))
 	}
 	// validity against the time of the handshake, not the time the endpoint was created
 	ops = append(ops, "T:node A:2 L:"+cert(10, 1, "h", -3600, 1, false), "T:hostid A:2 L:"+cert(10, 1, "h", -3600, 1, false),
@@ -488,7 +517,15 @@ func genTLS(e *emitter, r *rng.R, n int, tier string) {
 		if rr.Intn(6) == 0 {
 			cs = append(cs, V(2, 2, "n", true))
 		}
-		ops = append(ops, fmt.Sprintf("T:%s A:0 L:%s", rr.Pick([]string{"meta", "node", "hostid"}), strings.Join(cs, ";")))
+		extra := ""
+		if rr.Intn(4) == 0 {
+			extra += " H:ip"
+		}
+		tgt := rr.Pick([]string{"meta", "node", "hostid"})
+		if tgt != "meta" && rr.Intn(4) == 0 {
+			extra += " E:1"
+		}
+		ops = append(ops, fmt.Sprintf("T:%s A:0%s L:%s", tgt, extra, strings.Join(cs, ";")))
 	}
 }
 
